@@ -98,4 +98,12 @@ AltAlphabet(t) ==
 AltSizes == {<<2, 2>>, <<3, 2>>}
 AltFills == {<<>>, Labelled(4, 2), <<65, 65, 65, 65, 65>>}
 AltResizes(t) == {<<c, r>> \in {<<2, 2>>, <<2, 4>>, <<3, 3>>, <<1, 2>>, <<3, 1>>} : <<c, r>> # <<t.cols, t.rows>>}
+
+\* ------------------------------------------------------------- C10: reflow
+ReflowAlphabet(t) ==
+     {F1("Print", c) : c \in {97, 32}} \cup {F0("Cr"), F0("Lf"), F1("El", 0), F1("El", 1), F1("Ech", 1), F1("Dch", 1)}
+  \cup {F1("Cuu", 1), F1("Cuf", 1), F1("Cub", 1), FS("Sgr", <<<<48, 4>>>>), FS("Sgr", <<<<0, 0>>>>)}
+ReflowSizes == {<<1, 1>>, <<2, 2>>, <<3, 2>>, <<4, 2>>}
+ReflowFills == {<<>>, <<97, 98, 99, 100, 101>>, <<97, 98, 32, 32, 32, 99, 13, 10, 100>>, <<97, 13, 10, 13, 10, 98, 99, 100>>}
+ReflowResizes(t) == {<<c, r>> \in {<<1, 1>>, <<1, 3>>, <<2, 2>>, <<3, 1>>, <<3, 3>>, <<5, 2>>} : <<c, r>> # <<t.cols, t.rows>>}
 =============================================================================
